@@ -38,6 +38,10 @@ RleCodeOK == CodeOK(Rle(b), FALSE, 255)
 \* reading a row out of a lump: the row is followed by other rows' bytes; the cluster count bounds it
 RleInLump == \A t \in Tails : RLen(b) > 0 => UnRle(Canon(Rle(b) \o t), 0, 8 * RLen(b)) = b
 RleTruncates == \A m \in {1, 8, 9, 2039, 2041} : UnRle(Rle(b), 0, m) = Canon(Take(b, (m + 7) \div 8))
+\* the sequential lump layout is one the reader-side requirement accepts (2 clusters: rows are 1 byte long)
+VisSeqOK == LET r1 == [k \in 1..4 |-> Canon(Take((IF k \in {1, 4} THEN b ELSE <<>>) \o <<<<0, 1>>>>, 1))]
+                v == VisSequential(r1)
+            IN VisLumpOK(r1, v.count, v.offsets, v.at, v.lumplen)
 RleFamSize == PrintT(ToJson([tag |-> "FAMILY", rle |-> Cardinality(RleFam)]))
 
 (* ---- 2. the table machine ------------------------------------------------------ *)
@@ -68,7 +72,8 @@ ClaimsValid == \A c \in claims : /\ c.i + Len(c.items) <= Len(tbl)
                                  /\ \A j \in 1..Len(c.items) : tbl[c.i + j] = c.items[j]
 PrefixStable == [][IsPrefix(tbl, tbl')]_vars
 \* the laws as stated in the Ops module, at every step
-StepLaws == [][\/ (act'.op = "insert" /\ InsertLaw(tbl, Id, act'.x, [tbl |-> tbl', res |-> act'.res]))
+StepLaws == [][\/ (act'.op = "insert" /\ InsertLaw(tbl, Id, act'.x, [tbl |-> tbl', res |-> act'.res])
+                                      /\ NoDuplicate(tbl, Id, act'.x, [tbl |-> tbl', res |-> act'.res]))
                \/ (act'.op = "extend" /\ ExtendLaw(tbl, Id, act'.items, [tbl |-> tbl', res |-> act'.res]))]_vars
 \* find_or_insert never stores a second item with a key that is present
 NoNewDuplicate == [][act'.op = "insert" => Len(tbl') = Len(tbl) \/ \A i \in 1..Len(tbl) : tbl[i] # act'.x]_vars
